@@ -22,6 +22,10 @@ class Inconclusive(BaseException):
     """Solver said unknown, a shim met something it does not model, a bound was hit."""
 
 
+class PathTimeout(BaseException):
+    """One execution path did not finish within the per-path budget (possible non-termination)."""
+
+
 class CexFound(BaseException):
     """A prove() obligation has a counter-example on this path."""
 
@@ -227,10 +231,29 @@ def explore(fn: Callable[[Engine], Any], max_paths=2_000_000, max_cex=8, want_sa
     """Run fn on every feasible path.  fn may raise CexFound (recorded, exploration continues)."""
     prefix: list = []
     st = Stats()
+    import os
+    import threading
+    if deadline is None:
+        deadline = time.time() + float(os.environ.get("VT_CELL_BUDGET_S", "900"))
+    import signal
+    path_budget = float(os.environ.get("VT_PATH_BUDGET_S", "120"))
+    use_alarm = hasattr(signal, "setitimer") and threading.current_thread() is threading.main_thread()
+
+    def _on_alarm(signum, frame):
+        raise PathTimeout()
+
+    if use_alarm:
+        old_handler = signal.signal(signal.SIGALRM, _on_alarm)
     while True:
         e = Engine(prefix)
         try:
-            ret = fn(e)
+            if use_alarm:
+                signal.setitimer(signal.ITIMER_REAL, path_budget)
+            try:
+                ret = fn(e)
+            finally:
+                if use_alarm:
+                    signal.setitimer(signal.ITIMER_REAL, 0)
             if len(st.samples) < want_samples:
                 try:
                     st.samples.append(dict(model=e.sample(), note=ret if ret is not None else e.notes[:6]))
@@ -238,6 +261,14 @@ def explore(fn: Callable[[Engine], Any], max_paths=2_000_000, max_cex=8, want_sa
                     pass
         except Abort:
             st.aborted += 1
+        except PathTimeout:
+            try:
+                model = e.model_dict() if e.solver.check() == z3.sat else {}
+            except Exception:  # noqa: BLE001
+                model = {}
+            if len(st.cex) < max_cex:
+                st.cex.append(dict(msg=f"an execution path did not finish within {path_budget:.0f} s (non-termination?)",
+                                   model=model, info=dict(kind="path-did-not-terminate", notes=e.notes[:4])))
         except CexFound as c:
             if len(st.cex) < max_cex:
                 st.cex.append(dict(msg=c.msg, model=c.model, info=c.info))
@@ -266,6 +297,8 @@ def explore(fn: Callable[[Engine], Any], max_paths=2_000_000, max_cex=8, want_sa
         if deadline is not None and time.time() > deadline:
             st.inconclusive.append("time budget exhausted")
             break
+    if use_alarm:
+        signal.signal(signal.SIGALRM, old_handler)
     return st
 
 
